@@ -3,6 +3,7 @@ package checks
 import (
 	"encoding/json"
 	"fmt"
+	"math"
 	"strconv"
 	"strings"
 
@@ -252,6 +253,38 @@ func c05Main(r *engine.Run) {
 			}
 		}
 	})
+	// numeral spelling: values whose shortest float64 decimal differs from a float32-shortest or an
+	// exact-integer expansion (integers in [2^53, 2^63), float32-exact values, powers of ten around
+	// the exponent-notation thresholds of other formatters)
+	numerals := []float64{1 << 60, 1.2345678901234567e18, 9007199254740994, 9223372036854775807, float64(float32(0.1)), 134217728, -1073741824, float64(float32(151.2093)),
+		1e21, 1e22, 123456789012345680000, 1e-7, 1.0 / (1 << 40), math.MaxFloat32, 1 + 1.0/(1<<23), 1e15, 1e16, 1e17}
+	for i := 0; i+1 < len(numerals); i++ {
+		x, y := numerals[i], -numerals[i+1]
+		for gi, g := range []geom.Geometry{geom.NewPointXY(x, y).AsGeometry(), geom.NewLineStringXYZM(x, y, y, x, 0, 1, x, y).AsGeometry(),
+			geom.NewMultiPointXYZ(x, y, x, y, x, y).AsGeometry()} {
+			c := shapeCase{Idx: -100 - 3*i - gi, Note: fmt.Sprintf("numeral classes %v %v", x, y)}
+			if p := engine.SafeCall(func() { c05One(r, g, c, 0) }); p != nil {
+				r.Violation("C05/panic.numerals", "zero", c, fmt.Sprint(p))
+			}
+		}
+	}
+	r.Bound(fmt.Sprintf("numeral classes: %d special values (integers in [2^53,2^63), float32-exact values, 1e15..1e22, tiny) as Point / LineString ZM / MultiPoint Z ordinates", len(numerals)))
+	// trailing garbage that is not even a token: a complete geometry followed by a malformed numeral,
+	// a NUL byte, invalid UTF-8 or a stray symbol must be refused like any trailing token
+	for _, base := range []string{"POINT(1 2)", "POINT EMPTY", "LINESTRING Z (0 0 0,1 1 1)", "GEOMETRYCOLLECTION(POINT(1 2))", "MULTIPOINT((1 2),EMPTY)"} {
+		for _, tr := range []string{"08", "1e", "0x", "1e+", "\x00", "\xff", "0b", "1_", "@", "#", "1..2", "--1", ".", "e5"} {
+			for _, sep := range []string{" ", ""} {
+				in := base + sep + tr
+				r.Transitions.Add(1)
+				r.Evaluations.Add(1)
+				var err error
+				if p := engine.SafeCall(func() { _, err = geom.UnmarshalWKT(in) }); p != nil || err == nil {
+					r.Violation("C05/UnmarshalWKT.acceptsMalformedTrailer", "text", map[string]string{"wkt": in}, fmt.Sprint(p))
+				}
+			}
+		}
+	}
+	r.Bound("malformed trailers: 5 complete geometries × 14 non-token trailers (bad numerals, NUL, invalid UTF-8, stray symbols) × {space, no space}")
 	for _, ct := range allCT {
 		for i, g := range wideGeoms(ct) {
 			c := shapeCase{Idx: i, Shape: fmt.Sprintf("wide #%d (%s)", i, g.Type()), CT: int(ct), Sup: "wide"}
@@ -270,6 +303,17 @@ func c05Replay(r *engine.Run, sub string, raw json.RawMessage) error {
 	var c shapeCase
 	if err := json.Unmarshal(raw, &c); err != nil {
 		return err
+	}
+	if c.Sup == "wide" {
+		g, err := c.build()
+		if err != nil {
+			return err
+		}
+		c05One(r, g, c, 0)
+		return nil
+	}
+	if c.Idx <= -100 {
+		return fmt.Errorf("numeral-class cases are replayed by re-running the check (%s)", c.Note)
 	}
 	if c.Idx < 0 {
 		zeros := []geom.Geometry{{}, geom.Point{}.AsGeometry(), geom.LineString{}.AsGeometry(), geom.Polygon{}.AsGeometry(), geom.MultiPoint{}.AsGeometry(),
